@@ -333,14 +333,14 @@ def judge_subst(job):
         for child, valid, pvalid in cases:
             xml = c07.xml_subst(cfg, types, child)
             root = ET.fromstring(xml)
-            for path in (f"/t:P/t:{child}", f"t:{child}", f"/t:P/t:{child}[1]"):
+            for path in (f"/t:P/t:{child}", f"t:{child}", f"/t:P/t:{child}[1]", "/t:P/*", "*"):
                 n += 1
                 try:
                     got = schema.is_valid(root, path=path, namespaces=ns)
                     errs = [stable(e.reason)[:120] for e in schema.iter_errors(root, path=path, namespaces=ns)]
                     got_text = schema.is_valid(xml, path=path)
                     part = schema.decode(root, path=path, validation="lax", namespaces=ns)[0]
-                    xe = schema.get_element(root[0].tag, f"/t:P/t:{child}", ns)
+                    xe = schema.get_element(root[0].tag, "/t:P/*" if path.endswith("*") else f"/t:P/t:{child}", ns)
                 except Exception as e:      # noqa: BLE001
                     out.append((ver, child, xml, f"path={path!r} raised {type(e).__name__}: {e}"[:200], None))
                     continue
